@@ -79,7 +79,7 @@ Definition is_null_type (t : N) : bool :=
 
 Definition no_lf (s : bytes) : bool := forallb (fun b => negb (b =? 10)) s.
 Definition nonempty {A} (l : list A) : bool := match l with [] => false | _ => true end.
-Definition len_ok {A} (l : list A) : bool := (zlen l <? two63)%Z.
+Definition len_ok {A} (l : list A) : bool := (zlen l + 2 <? two63)%Z.   (* length + 2 is computed in int64 by streamTo *)
 (** Go cannot allocate more than 2^48 bytes: a payload, or an aggregate of 40-byte messages, beyond that is not a reply any client could hold *)
 Definition max_len : Z := 281474976710656%Z.
 Definition le_max (x : Z) : bool := (x <=? max_len)%Z.
